@@ -28,6 +28,22 @@ type gen struct {
 	leader    int // the leader the clientSets knows for the cluster's shard (0: none)
 }
 
+// tickOp: one round of the counter manager; the server answers the request (if one is sent) with accept mostly
+func (g *gen) tickOp(acceptPercent int) Op {
+	// never within (95 ms, 100 ms) of the previous answer: the wrapper compares the wall clock with 100 ms
+	g.now += rig.Pick(g.c.Rng, []int64{sec / 20, sec / 5, 9 * sec / 10, 9 * sec / 10, sec, 3 * sec, 5 * sec})
+	op := Op{Op: "tick", Now: g.now}
+	switch x := g.n(100); {
+	case x < acceptPercent:
+		op.Ans = &TickAns{Accept: true, Limit: g.limit()}
+	case x < acceptPercent+(100-acceptPercent)/3:
+		op.Ans = &TickAns{Accept: false, Limit: g.limit()}
+	case x < acceptPercent+2*(100-acceptPercent)/3:
+		op.Ans = &TickAns{Err: rig.Pick(g.c.Rng, []string{"timeout", "limiter server unavailable", "RequestIDTooOld"})}
+	}
+	return op
+}
+
 // syncOp: one server-info sync: unreachable, no endpoint for the shard, the known leader again (most), or a new one
 func (g *gen) syncOp(n int) Op {
 	op := Op{Op: "sync", N: n, OtherLeader: g.n(3)}
@@ -273,7 +289,44 @@ func genScenario(c *rig.Ctx, i int) Case {
 	errReply := func() Op {
 		return fresh(Op{Op: "setlimit", Err: rig.Pick(g.c.Rng, []string{"timeout", "limiter server unavailable"}), Accept: g.n(2) == 0, Limit: g.limit()})
 	}
-	switch g.n(4) {
+	switch g.n(6) {
+	case 4, 5: // global count, request side: the counter manager's rounds — fill, fail while idle, recover
+		ops = append(ops, sch("globalCount"))
+		ready()
+		ops = append(ops, Op{Op: "reconcile"})
+		grant := func() Op {
+			op := g.tickOp(100)
+			// a grant of at least the reserve fills it: nothing left to ask for (ExpectToken() == 0)
+			op.Ans = &TickAns{Accept: true, Limit: rig.Pick(g.c.Rng, []int64{maxI32, 100000, g.limit()})}
+			return op
+		}
+		maybe(70, func() { ops = append(ops, Op{Op: "event"}) })
+		for k := 0; k < 1+g.n(3); k++ {
+			ops = append(ops, grant())
+		}
+		maybe(50, func() { ops = append(ops, g.meter()) })
+		// the outage: the reset check's time-out, an error answer, or unanswered rounds
+		switch g.n(3) {
+		case 0:
+			ops = append(ops, Op{Op: "setlimit", Err: "timeout"})
+		case 1:
+			op := g.tickOp(0)
+			op.Ans = &TickAns{Err: "limiter server unavailable"}
+			ops = append(ops, op, Op{Op: "setlimit", Err: "timeout"})
+		default:
+			for k := 0; k < 2; k++ {
+				op := g.tickOp(0)
+				op.Ans = nil
+				ops = append(ops, op)
+			}
+			ops = append(ops, Op{Op: "setlimit", Err: "timeout"})
+		}
+		maybe(25, func() { ops = append(ops, Op{Op: "event"}) })
+		// the server is back: every request is answered with accept
+		for k := 0; k < 3+g.n(5); k++ {
+			ops = append(ops, grant())
+			maybe(10, func() { ops = append(ops, Op{Op: "event"}) })
+		}
 	case 0, 1: // global count: outage, reconfiguration during the outage, recovery
 		ops = append(ops, sch("globalCount"))
 		ready()
@@ -433,6 +486,12 @@ func genCase(c *rig.Ctx, i int) Case {
 		}
 		if g.n(100) < 9 {
 			ops = append(ops, g.syncOp(cs.Shards))
+		}
+		if g.n(100) < 14 {
+			ops = append(ops, g.tickOp(60))
+		}
+		if g.n(100) < 5 {
+			ops = append(ops, Op{Op: "event"})
 		}
 	}
 	cs.Ops = ops
